@@ -36,6 +36,8 @@ var labelPool = []string{
 	"true", "false", "if", "else", "for", "while", "do", "switch", "case", "default", "break", "continue", "return",
 	"packed_float3", "float3x3", "atomic_int", "threadgroup", "device", "constant", "thread", "M_PI_F", "INFINITY", "NAN",
 	"dot", "cross", "min", "max", "clamp", "abs", "sign", "select", "mix", "step", "pow", "exp", "log", "sqrt",
+	// stems of the reserved prefixes: `gl` + the collision suffix `_1` would be `gl_1`
+	"gl", "gl_", "gen", "gen_", "gen_gl", "naga", "naga_", "_naga", "type", "type_", "_e", "_group", "_group_", "local_", "sv", "SV", "SV_", "ret", "ret_",
 	"a:b", "a<b>", "a,b", "a b", ":1", "<1", "a:", "::", "std::x", "f<i32>", "a-b", "a.b", "a+b", "$", "a$b", "\t", " ",
 }
 
